@@ -20,7 +20,7 @@ EXPLANATION = (
     "the two appends, both after the item finished) and the returned results pass through a sort keyed by that index; the unbounded branch returns "
     "the gather result of tasks built by iterating the variations in order; (R3) the sync map runs and appends in iteration order and, like the "
     "collectors, raises the first failed item's own error object; (R4) zip expansion indexes every mapped list with the same increasing index after "
-    "an equal-length check, product expansion is itertools.product over the lists in map_over order. (R5) a mapping graph node's executor forwards every translated input to the nested map unchanged, dropping exactly the values that *are* the inner graph's own bound objects (truth table of the comprehension filter over 'key bound' x 'same object')."
+    "an equal-length check, product expansion is itertools.product over the lists in map_over order. (R5) a mapping graph node's executor forwards every translated input to the nested map unchanged, dropping exactly the values that *are* the inner graph's own bound objects (truth table of the comprehension filter over 'key bound' x 'same object'). R1 also requires that under 'item FAILED and mode is not raise' every reachable append stores the constant None (partial values of a failed item are not results)."
 )
 NOT_DECIDED = "That each item's result equals the single run on that combination, and the values produced by zip/product expansion (statements about computed data); clone semantics."
 
